@@ -114,6 +114,11 @@ def run_history(run, rng, hid, maxlen, steps):
                 run.count("write", f"{op[4]['call']}:{out[0]}" + (":new-entries" if obs is not None and before is not None and len(O.entries_of(obs)) > len(O.entries_of(before)) else ""))
                 op = ["write", op[1], op[2], obs if obs is not None else before, op[4]]
                 case["op"] = op[:3] + [op[4]]
+            elif op[0] == "selectin":
+                obs = O.get_at(post, op[1])
+                before = O.get_at(pre, op[1])
+                run.count("selectin", f"{'strict' if op[3]['strict'] else 'lenient'}:{out[0]}" + (":shrunk" if obs is not None and before is not None and obs != before else ""))
+                op = ["selectin", op[1], obs if obs is not None else before, op[3]]
             else:
                 op = op[:4]
             viol = walk(td)
@@ -172,6 +177,8 @@ def replay_file(run, path, quiet=False):
             continue
         if O.snap(td) != pre:
             run.notes.append(f"replay: could not rebuild the recorded pre-state of {case.get('id', op[0])} exactly")
+        if op[0] == "write" and len(op) == 4:
+            op = op[:3] + [None, op[3]]          # recorded without the observed state
         op = O.prepare_op(op)
         if op is None:
             continue
@@ -190,7 +197,7 @@ def replay_file(run, path, quiet=False):
 def main():
     run = Run("C01")
     run.rule = ("random histories of 1..25 mutating calls (set of well/ill-shaped tensors and nested tensordicts incl. auto-created keys, batch_size and names "
-                "assignment, del_, rename_key_, create_nested, clear, pop, popitem, setdefault, refine_names, update with dict or tensordict payloads, exclude / flatten_keys / unflatten_keys in place; auto_batch_size_ on the root) issued on the root or through a nested handle, on trees of depth <= 3, batch rank 0-3 with "
+                "assignment, del_, rename_key_, create_nested, clear, pop, popitem, setdefault, refine_names, update with dict or tensordict payloads, exclude / select / flatten_keys / unflatten_keys in place, writes into existing storage by index (set_at_, __setitem__, update_at_, set_ / update_), update with a tensordict; auto_batch_size_ on the root or through a handle) issued on the root or through a nested handle, on trees of depth <= 3, batch rank 0-3 with "
                 "dims in {0,1,2,3}, cpu/meta/no device, named/unnamed; a case is one (pre-state, op) pair")
     run.trusted += [
         "Model/C01Coherence.lean: hand transcription of _validate_value/_set_tuple/_batch_size_setter/_check_new_batch_size/names setter/_rename_subtds/"
@@ -202,7 +209,7 @@ def main():
     run.assumptions += [
         "values of leaves are not modelled (C02/C03/C07); `.to(device)` is modelled as: result on the requested device, except out of the meta device (raises)",
         "out of scope (property text): shrinking / altering a child's batch size through a direct handle so that it no longer extends its parent's",
-        "locking, memmap/shared state are outside the model; lazy stacks / tensorclass / non-tensor entries / in-place and index writes / update(update_batch_size=True) / select in place are oracle-only",
+        "locking, memmap/shared state are outside the model; non-tensor entries, nested lazy stacks / tensorclasses inside a tree and update(update_batch_size=True) are oracle-only (walk-ext); index writes and select in place are witnessed envelopes (the model is given the observed state and accepts it iff it lies inside a decidable envelope proved coherent)",
     ]
     run.build_and_audit(["TdVerif.Props.C01"])
     import c04_pins
@@ -229,7 +236,7 @@ def main():
         v = parse_sx(a)
         model = [O.tree_from_sx(v[0]), ["ok"] if v[1][0] == "ok" else ["err", v[1][1]]]
         run.corr("step.state", s["case"], s["impl"][0], model[0])
-        if s["op"][0] != "write":      # the outcome of a write into storage depends on torch's `tensor[index] = value`: not modelled
+        if s["op"][0] not in ("write", "selectin"):      # (select in place: the model is a witnessed envelope, its outcome says "inside"); the outcome of a write into storage depends on torch's `tensor[index] = value`: not modelled
             run.corr("step.outcome", s["case"], s["impl"][1], model[1])
     for s in steps[:3]:
         run.sample({"pre": s["pre"], "op": s["op"], "impl_post": s["impl"][0], "impl_out": s["impl"][1]})
